@@ -38,11 +38,12 @@ func (c *HeartbeatManager) IsHeartbeatRunning() bool {
 	c.stopMux.Lock()
 	defer c.stopMux.Unlock()
 
-	if c.stopHeartbeatC != nil && !c.isHeartbeatClosed() {
-		return true
-	}
+	return c.isHeartbeatRunning()
+}
 
-	return false
+// needs to be called with stopMux being locked
+func (c *HeartbeatManager) isHeartbeatRunning() bool {
+	return c.stopHeartbeatC != nil && !c.isHeartbeatClosed()
 }
 
 func (c *HeartbeatManager) SetLocalFeature(entity api.EntityLocalInterface, feature api.FeatureLocalInterface) {
@@ -88,8 +89,13 @@ func (c *HeartbeatManager) StartHeartbeat() error {
 		return err
 	}
 
+	c.stopMux.Lock()
+	defer c.stopMux.Unlock()
+
 	// stop an already running heartbeat
-	c.StopHeartbeat()
+	if c.isHeartbeatRunning() {
+		close(c.stopHeartbeatC)
+	}
 	verifYield("StartHeartbeat.stopped-old")
 
 	c.stopHeartbeatC = make(chan struct{})
@@ -102,7 +108,10 @@ func (c *HeartbeatManager) StartHeartbeat() error {
 // Stop updating heartbeat data
 // Note: No active subscribers will get any further notifications!
 func (c *HeartbeatManager) StopHeartbeat() {
-	if c.IsHeartbeatRunning() {
+	c.stopMux.Lock()
+	defer c.stopMux.Unlock()
+
+	if c.isHeartbeatRunning() {
 		verifYield("StopHeartbeat.running")
 		close(c.stopHeartbeatC)
 	}
